@@ -1,5 +1,10 @@
 """C14 — truncated or over-long files make load fail cleanly: never hang or lie.
 
+Round 5 additions: (1) the LEGACY formats `joblib.load` still accepts — ZF z-files (model lean/JoblibModel/ZFileLegacy.lean,
+driver request `zfile`, route `zfread` = numpy_pickle_compat.read_zfile directly), multi-file pickles with .npy / .npy.z
+companions (samples of joblib/test/data, main file or a companion damaged); (2) TWO callers of one damaged cache entry under
+every <= 3-switch interleaving of the store-backend operations, for the Memory options that change the read path.
+
 Model: lean/JoblibModel/ZlibFile.lean (raw 8192-byte blocks + zlib.decompressobj with eof/unused_data,
 `_fill_buffer`, `load` as BufferedReader(1 MiB) + unpickler contract, `_cached_call`'s try/except);
 theorems: lean/JoblibProofs/C14.lean; driver: lean/Driver/C14.lean.
@@ -47,6 +52,9 @@ REQUIRED_THEOREMS = [
     "C14.damaged_entry_recomputes",
     "C14.old_fill_diverges",
     "C14.old_read_diverges",
+    "C14.legacy_truncation_never_lies",
+    "C14.legacy_trailing_bytes_ignored",
+    "C14.legacy_load_class",
 ]
 TRUSTED_EXTRA = [
     "modelled, not verified: CPython's zlib (hypothesis ValidFile/StreamLaw of the theorems; in the correspondence the model "
@@ -57,6 +65,12 @@ TRUSTED_EXTRA = [
     "bz2/lzma/xz are CPython's own file objects: the model predicts only the contract {raises, returns-original} for them; "
     "termination there is established by the watchdog runs only",
     "hang is observed as watchdog expiry or exhaustion of a 192 MiB address-space cap in a subprocess (normal peak < 60 MiB)",
+    "legacy z-files (lean/JoblibModel/ZFileLegacy.lean): zlib.decompress is a parameter of the model (hypothesis ZValid of the "
+    "theorems; in the correspondence the model is fed what CPython's zlib.decompress does on file[21:] and file[22:]); int(bytes, 16) "
+    "is modelled (pyIntHex) and tied to CPython's int on the cut length fields and on random malformed fields; old multi-file "
+    "pickles (.npy companions read by numpy.load) are covered by the watchdog runs only",
+    "two concurrent callers of one damaged cache entry: not modelled in Lean; forced interleavings of two threads at store-backend "
+    "method granularity with an oracle on the returned values only",
 ]
 
 COMPRESSORS = ["zlib", "gzip", "bz2", "lzma", "xz", "none"]
@@ -112,6 +126,8 @@ def same(a, b):
     if isinstance(a, (list, tuple)):
         return len(a) == len(b) and all(same(x, y) for x, y in zip(a, b))
     if type(a).__module__ == "numpy":
+        if getattr(a, "dtype", None) is not None and a.dtype.hasobject:
+            return a.dtype == b.dtype and a.shape == b.shape and same(a.tolist(), b.tolist())
         return a.dtype == b.dtype and a.shape == b.shape and a.tobytes() == b.tobytes()
     return a == b
 
@@ -157,12 +173,16 @@ def run(item):
         comp, level = item["comp"], item["level"]
         joblib.dump(make_obj(item["spec"]), item["path"], compress=((comp, level) if comp != "none" else 0))
         return dict(cls="built")
+    if item.get("cmd") == "legacy":
+        return run_legacy(item)
+    if item.get("cmd") == "race":
+        return run_race(item)
     spec, route = item["spec"], item["route"]
     want = make_obj(spec)
     if route == "memory":
         f, out, orig, md, md_orig = mem_entry(spec, item["comp"], item["level"], item.get("tag", 0))
         valid = open(item["valid"], "rb").read()
-        if orig != valid:
+        if orig != valid and not item.get("legacy"):
             return dict(cls="infra", detail="output.pkl differs from joblib.dump of the same object: %r vs %r" % (orig[:40], valid[:40]))
         data = damaged(item)
         with open(out, "wb") as fh:
@@ -206,6 +226,231 @@ def run(item):
     except Exception as e:
         return dict(cls="raises", exc=type(e).__name__)
     return dict(cls="returns-original" if same(v, want) else "returns-other")
+
+# ---- legacy formats (joblib < 0.10): ZF z-files, multi-file pickles with companion files
+LEG = {}
+def run_legacy(item):
+    import shutil
+    from joblib import numpy_pickle_compat as npc
+    key = json.dumps(item["files"], sort_keys=True) + item["main"]
+    if key not in LEG:
+        d = os.path.join(scratch, "leg%d" % len(LEG))
+        os.makedirs(d)
+        for rel, src in item["files"].items():
+            shutil.copyfile(src, os.path.join(d, rel))
+        try:
+            want = joblib.load(os.path.join(d, item["main"]))
+        except Exception as e:
+            LEG[key] = (d, None, type(e).__name__)
+        else:
+            if item.get("spec") is not None and not same(want, make_obj(item["spec"])):
+                return dict(cls="infra", detail="the intact legacy file does not load to the object it was written from")
+            LEG[key] = (d, want, None)
+    d, want, intact_exc = LEG[key]
+    if intact_exc is not None:
+        return dict(cls="intact-raises", exc=intact_exc)
+    valid = open(item["files"][item["target"]], "rb").read()
+    dmg = item["damage"]
+    data = valid[:dmg[1]] if dmg[0] == "cut" else valid + bytes.fromhex(dmg[2])
+    tpath = os.path.join(d, item["target"])
+    route = item["route"]
+    try:
+        if route == "zfread":
+            try:
+                got = npc.read_zfile(io.BytesIO(data))
+            except MemoryError:
+                return dict(cls="hang", detail="memory-cap")
+            except Exception as e:
+                return dict(cls="raises", exc=type(e).__name__)
+            return dict(cls="zdata", n=len(got), adler=zlib.adler32(got))
+        with open(tpath, "wb") as fh:
+            fh.write(data)
+        try:
+            if route == "path":
+                v = joblib.load(os.path.join(d, item["main"]))
+            else:
+                v = joblib.load(io.BytesIO(open(os.path.join(d, item["main"]), "rb").read()))
+        except MemoryError:
+            return dict(cls="hang", detail="memory-cap")
+        except Exception as e:
+            return dict(cls="raises", exc=type(e).__name__)
+        return dict(cls="returns-original" if same(v, want) else "returns-other")
+    finally:
+        with open(tpath, "wb") as fh:
+            fh.write(valid)
+
+# ---- two callers of one damaged cache entry under forced interleavings
+import threading
+class SchedTimeout(Exception):
+    pass
+
+class Sched:
+    """Segments [(thread, n), ...]: `thread` runs until it has passed its n-th point (cumulative), then the next
+    segment's thread runs; when the segments are used up (or their thread has finished) A runs to its end, then B."""
+    def __init__(self, segs):
+        self.cv = threading.Condition()
+        self.segs = [tuple(x) for x in segs]
+        self.si = 0
+        self.count = {"A": 0, "B": 0}
+        self.done = set()
+        self.trace = []
+    def _owner(self):
+        while self.si < len(self.segs) and (self.segs[self.si][0] in self.done
+                                            or self.count[self.segs[self.si][0]] >= self.segs[self.si][1]):
+            self.si += 1
+        if self.si < len(self.segs):
+            return self.segs[self.si][0]
+        for n in ("A", "B"):
+            if n not in self.done:
+                return n
+        return None
+    def wait_turn(self, me):
+        with self.cv:
+            if not self.cv.wait_for(lambda: self._owner() == me, timeout=15):
+                raise SchedTimeout(me)
+    def point(self, me, label):
+        with self.cv:
+            self.count[me] += 1
+            self.trace.append(me + ":" + label)
+            self.cv.notify_all()
+        self.wait_turn(me)
+    def finish(self, me):
+        with self.cv:
+            self.done.add(me)
+            self.cv.notify_all()
+
+HOOKED = ["contains_item", "get_metadata", "load_item", "clear_item", "dump_item", "store_metadata"]
+RACE = {}
+def race_entry(item):
+    opts = item["opts"]
+    key = json.dumps([item["spec"], item["comp"], item["level"], opts], sort_keys=True)
+    if key not in RACE:
+        d = os.path.join(scratch, "race%d" % len(RACE))
+        comp, level = item["comp"], item["level"]
+        mem = joblib.Memory(d, verbose=0, mmap_mode=opts.get("mmap_mode"),
+                            compress=((comp, level) if comp != "none" else False))
+        kw = {}
+        if opts.get("validation"):
+            kw["cache_validation_callback"] = lambda metadata: isinstance(metadata, dict)
+        f = mem.cache(producer, **kw)
+        spec = tuple(item["spec"])
+        f(spec)
+        items = mem.store_backend.get_items()
+        assert len(items) == 1, items
+        out = os.path.join(items[0].path, "output.pkl")
+        md = os.path.join(items[0].path, "metadata.json")
+        RACE[key] = (f, out, open(out, "rb").read(), md, open(md, "rb").read())
+    return RACE[key]
+
+def race_once(item, f, out, data, md, md_orig, segs, want):
+    os.makedirs(os.path.dirname(out), exist_ok=True)
+    with open(out, "wb") as fh:
+        fh.write(data)
+    how = item.get("meta", "keep")
+    if how == "missing":
+        if os.path.exists(md):
+            os.unlink(md)
+    else:
+        with open(md, "wb") as fh:
+            fh.write(md_orig if how == "keep" else b"" if how == "empty" else md_orig[:max(1, len(md_orig) // 2)])
+    sched = Sched(segs)
+    backend = f.store_backend
+    real = {}
+    def wrap(name):
+        fn = getattr(backend, name)
+        real[name] = fn
+        def hooked(*a, **k):
+            me = threading.current_thread().name
+            if me not in ("A", "B"):
+                return fn(*a, **k)
+            lab = name
+            try:
+                return fn(*a, **k)
+            except BaseException:
+                lab = name + "!"
+                raise
+            finally:
+                sched.point(me, lab)
+        return hooked
+    for name in HOOKED:
+        setattr(backend, name, wrap(name))
+    outcome = {}
+    spec = tuple(item["spec"])
+    opts = item["opts"]
+    def body(me):
+        try:
+            sched.wait_turn(me)
+            if opts.get("precheck"):
+                f.check_call_in_cache(spec)
+            if opts.get("entry") == "shelve":
+                v = f.call_and_shelve(spec).get()
+            else:
+                v = f(spec)
+            outcome[me] = "ok" if same(v, want) else "wrong-value"
+        except SchedTimeout:
+            outcome[me] = "sched-timeout"
+        except MemoryError:
+            outcome[me] = "hang"
+        except BaseException as e:
+            outcome[me] = "raises:" + type(e).__name__
+        finally:
+            sched.finish(me)
+    ths = [threading.Thread(target=body, args=(n,), name=n) for n in ("A", "B")]
+    try:
+        for t in ths:
+            t.start()
+        for t in ths:
+            t.join(40)
+        alive = [t.name for t in ths if t.is_alive()]
+    finally:
+        for name in HOOKED:
+            try:
+                delattr(backend, name)
+            except AttributeError:
+                pass
+    for n in alive:
+        outcome[n] = "hang"
+    return outcome, dict(sched.count), sched.trace
+
+def run_race(item):
+    f, out, orig, md, md_orig = race_entry(item)
+    valid = open(item["valid"], "rb").read()
+    if orig != valid:
+        return dict(cls="infra", detail="output.pkl differs from joblib.dump of the same object")
+    data = damaged(item)
+    want = make_obj(item["spec"])
+    if item.get("schedule") is not None:
+        scheds = [item["schedule"]]
+    else:
+        # counts of points when the callers run one after the other, then every schedule with at most 3 switches:
+        # B up to its i-th store operation, A up to its j-th, B up to its k-th, A to the end, B to the end
+        o, cnt, tr = race_once(item, f, out, data, md, md_orig, [], want)
+        scheds = [[]]
+        nA, nB = cnt["A"], cnt["B"]
+        top = max(nA, nB)      # a caller that recomputes performs more operations than one that is served
+        for i in range(1, top):
+            for j in range(1, top + 1):
+                scheds.append([["B", i], ["A", j]])
+                for k in range(i + 1, top + 1):
+                    scheds.append([["B", i], ["A", j], ["B", k]])
+        lim = item.get("max_schedules")
+        if lim and len(scheds) > lim:
+            import random
+            scheds = [scheds[0]] + random.Random(item["id"]).sample(scheds[1:], lim - 1)
+    runs, bad, bad_shelve = 0, None, None
+    seen = set()
+    for segs in scheds:
+        o, cnt, tr = race_once(item, f, out, data, md, md_orig, segs, want)
+        runs += 1
+        seen.add(" ".join(tr))
+        if any(v != "ok" for v in o.values()):
+            bad = dict(schedule=segs, outcome=o, trace=tr)
+            strict = not (item["opts"].get("entry") == "shelve" and not item.get("shelve_strict"))
+            if strict or any(not v.startswith("raises") for v in o.values()):
+                break
+            bad_shelve, bad = bad_shelve or bad, None
+    rep = dict(cls="race", runs=runs, distinct=len(seen), bad=bad, bad_shelve=bad_shelve)
+    return rep
 
 out = sys.stdout
 for line in sys.stdin:
@@ -631,7 +876,7 @@ def _explore(ctx, salt, plan=None, only=None, budget_scale=1):
     res = Result()
     res.rule = ("one evaluation = one damaged file loaded through one route in a watched subprocess; files: every compressor "
                 "(zlib gzip bz2 lzma xz none) x small objects (every truncation length) and multi-block objects (boundary-biased "
-                "lengths), zlib/gzip files whose length is 0..9 or 8191 mod 8192 (the last raw block holds only checksum-trailer bytes), large non-ASCII strings cut in the middle of a multi-byte character, numpy arrays, garbage/zero/second-stream suffixes; non-trivial = the damaged file differs from the valid one and is "
+                "lengths), zlib/gzip files whose length is 0..9 or 8191 mod 8192 (the last raw block holds only checksum-trailer bytes), large non-ASCII strings cut in the middle of a multi-byte character, numpy arrays, garbage/zero/second-stream suffixes; legacy formats (ZF z-files with narrow and wide header at every truncation length, multi-file sample pickles with a damaged main file or companion); one evaluation = also one forced interleaving of two callers of one damaged cache entry, and one int(bytes, 16) comparison; non-trivial = the damaged file differs from the valid one and is "
                 "non-empty; distinct by (object, compressor, level, damage, route)")
     rng = ctx.rng(salt)
     watchdog = 60 if ctx.thorough else 20
@@ -795,7 +1040,318 @@ def _explore(ctx, salt, plan=None, only=None, budget_scale=1):
         "files are written by the same joblib (dump is not under test here); plain Python objects run under /venv/bin/python, objects holding numpy arrays under python3-vt (numpy) with PYTHONPATH-free sys.path insertion of VERIF_REPO",
         f"watchdog {watchdog}s per case, address-space cap {CAP_MB} MiB per worker; slowest terminating case {slow}s",
         "payloads are < 1 MiB except the thorough tier's 1.2 MB compressible string (two BufferedReader fills); the model (lists) is quadratic in the raw size, so incompressible files stop at 300 KB",
+        "legacy formats: z-files are written by numpy_pickle_compat.write_zfile of the tree under test (pickle protocol 2), the wide header of joblib <= 0.8.4 is made by inserting the extra space; multi-file pickles are the samples of joblib/test/data loaded under python3-vt",
+        "two callers: threads, interleaved at the granularity of the store-backend methods (whole operations are atomic), at most three switches; call_and_shelve(...).get() on a damaged entry raises on the unchanged tree: reported under the single signature shelved-reference:get-raises-on-damaged-entry (known finding F59); a lying or hanging shelved path keeps its own signature",
     ]
+    if only is None:
+        _explore_legacy(ctx, salt, res)
+        _explore_race(ctx, salt, res)
+    return res
+
+
+# ----------------------------------------------------------------------------- legacy formats (joblib < 0.10)
+
+LEGACY_SAMPLES = [
+    # (main file, companions) in joblib/test/data of the tree under test: old multi-file pickles with .npy companions,
+    # ZF-compressed pickles, ZF-compressed pickle with .npy.z companions
+    ("joblib_0.9.2_pickle_py35_np19.pkl", ["_01.npy", "_02.npy", "_03.npy", "_04.npy"]),
+    ("joblib_0.9.2_compressed_pickle_py35_np19.gz", []),
+    ("joblib_0.9.4.dev0_compressed_cache_size_pickle_py35_np19.gz", ["_01.npy.z", "_02.npy.z", "_03.npy.z"]),
+    ("joblib_0.9.2_pickle_py34_np19.pkl", ["_01.npy", "_02.npy", "_03.npy", "_04.npy"]),
+    ("joblib_0.9.2_compressed_pickle_py34_np19.gz", []),
+]
+
+
+def _legacy_cuts(rng, R, thorough, exhaustive_limit=200):
+    if R <= exhaustive_limit:
+        cuts = list(range(R))
+    else:
+        cand = {0, 1, 2, 3, 4, 11, 20, 21, 22, 23, 24, 30, R - 1, R - 2, R - 3, R - 4, R - 5, R - 9, R // 2, R // 3}
+        for k in range(1, R // 65536 + 2):
+            cand |= {21 + 65536 * k - 1, 21 + 65536 * k, 21 + 65536 * k + 1, 65536 * k}
+        for _ in range(30 if thorough else 6):
+            cand.add(rng.randrange(R))
+        cuts = sorted(c for c in cand if 0 <= c < R)
+    return [["cut", k] for k in cuts]
+
+
+def _zdec(b):
+    try:
+        return "ok:%d" % len(zlib.decompress(b))
+    except zlib.error:
+        return "err"
+
+
+def zfile_line(data, L):
+    return "zfile %s %d %s %s %d" % (data[:22].hex() or "-", len(data), _zdec(data[21:]), _zdec(data[22:]), L)
+
+
+def _explore_legacy(ctx, salt, res, only=None):
+    """Every on-disk format `joblib.load` still accepts: ZF z-files written by `numpy_pickle_compat.write_zfile`
+    (narrow header and the wide one of joblib <= 0.8.4), and the sample files of joblib/test/data (multi-file pickles
+    with .npy / .npy.z companions) — the main file or one companion cut at every / boundary-biased length or extended."""
+    import io
+    import pickle
+
+    joblib = core.use_repo()
+    from joblib import numpy_pickle_compat as npc
+
+    rng = ctx.rng(salt + "/legacy")
+    watchdog = 60 if ctx.thorough else 20
+    sets = []  # dict(kind, files{rel: path}, main, spec, level, wide, zf_targets{rel: L})
+    if only is None or only.get("kind") == "zf":
+        if only is not None:
+            zplan = [(tuple(only["spec"]), only["level"], only["wide"])]
+        else:
+            zplan = [(("dict",), 3, False), (("dict",), rng.choice([1, 6, 9]), True), (("int",), 3, False),
+                     (("rep", 20000), rng.choice([1, 3, 9]), rng.random() < 0.5), (("rand", 20000, rng.randrange(1000)), 3, False)]
+            if ctx.thorough:
+                zplan += [(("rand", 70000, rng.randrange(1000)), 1, False), (("rand", 200000, 3), 6, True), (("str", 600000), 9, False)]
+        for spec, level, wide in zplan:
+            pk = pickle.dumps(_make_obj(spec), protocol=2)
+            b = io.BytesIO()
+            npc.write_zfile(b, pk, compress=level)
+            data = b.getvalue()
+            if wide:
+                data = data[:21] + b" " + data[21:]
+            name = "legacy-%s-%d-%s.pkl" % ("_".join(str(x) for x in spec), level, "wide" if wide else "narrow")
+            (ctx.scratch / name).write_bytes(data)
+            sets.append(dict(kind="zf", files={"main.pkl": str(ctx.scratch / name)}, main="main.pkl", spec=list(spec), level=level,
+                             wide=wide, zf={"main.pkl": len(pk)}, np=False))
+    if only is None or only.get("kind") == "sample":
+        ddir = core.REPO / "joblib" / "test" / "data"
+        for main, comps in LEGACY_SAMPLES:
+            if only is not None and only.get("sample") != main:
+                continue
+            if only is None and not ctx.thorough and main.endswith("py34_np19.pkl"):
+                continue
+            files = {main: str(ddir / main)}
+            for c in comps:
+                files[main + c] = str(ddir / (main + c))
+            if not all(Path(p).exists() for p in files.values()):
+                res.count("legacy-sample-missing")
+                continue
+            zf = {}
+            for rel, pth in files.items():
+                raw = Path(pth).read_bytes()
+                if raw[:2] == b"ZF":
+                    try:
+                        zf[rel] = len(zlib.decompress(raw[22:] if raw[21:22] == b" " else raw[21:]))
+                    except zlib.error:
+                        pass
+            sets.append(dict(kind="sample", sample=main, files=files, main=main, spec=None, level=None, wide=None, zf=zf, np=True))
+    items, meta = [], {}
+    for st in sets:
+        for rel, pth in st["files"].items():
+            raw = Path(pth).read_bytes()
+            R = len(raw)
+            if only is not None:
+                if rel != only["target"]:
+                    continue
+                dmgs = [only["damage_full"]]
+            else:
+                dmgs = _legacy_cuts(rng, R, ctx.thorough, 200 if st["kind"] == "zf" and (ctx.thorough or not st["wide"]) else 0)
+                sufs = [("X", b"X"), ("zero5", b"\0" * 5), ("rand16", rng.randbytes(16)), ("second-stream", raw)]
+                if ctx.thorough:
+                    sufs += [("space", b" "), ("rand64", rng.randbytes(64)), ("newline", b"\n")]
+                dmgs += [["ext", n, x.hex()] for n, x in sufs]
+            for n, dmg in enumerate(dmgs):
+                if only is not None:
+                    routes = [only["route"]]
+                else:
+                    routes = ["path"] + (["zfread"] if rel in st["zf"] else [])
+                    if len(routes) == 2 and dmg[0] == "cut" and dmg[1] > 24 and R <= 200 and not ctx.thorough:
+                        routes = [routes[n % 2]]     # past the header: the two routes alternate
+                    if st["kind"] == "zf" and n % 6 == 0:
+                        routes.append("fileobj")
+                    if st["kind"] == "zf" and n % 9 == 0:
+                        routes.append("memory")
+                for route in routes:
+                    i = len(items)
+                    comp = "legacy-" + st["kind"]
+                    if route == "memory":
+                        # a cache entry whose output.pkl is the damaged legacy file of the value
+                        items.append(dict(id=i, spec=st["spec"], comp="none", level=0, valid=pth, damage=dmg, route="memory", legacy=True,
+                                          tag=0, meta="keep"))
+                    else:
+                        items.append(dict(id=i, cmd="legacy", comp=comp, files=st["files"], main=st["main"], target=rel, spec=st["spec"],
+                                          damage=dmg, route=route))
+                    meta[i] = (st, rel, raw, dmg, route)
+    plain = [it for it in items if not meta[it["id"]][0]["np"]]
+    withnp = [it for it in items if meta[it["id"]][0]["np"]]
+    replies = {}
+    if plain:
+        replies.update(run_items(ctx, plain, watchdog, n_workers=4, py=core.PY))
+    if withnp:
+        replies.update(run_items(ctx, withnp, watchdog, n_workers=3, py=core.PY_NUMPY))
+    # model: read_zfile / load_compatibility on every damaged ZF file
+    lines, lidx = [], {}
+    for i, (st, rel, raw, dmg, route) in meta.items():
+        if rel in st["zf"]:
+            data = raw[: dmg[1]] if dmg[0] == "cut" else raw + bytes.fromhex(dmg[2])
+            ln = zfile_line(data, st["zf"][rel])
+            if ln not in lidx:
+                lidx[ln] = len(lines)
+                lines.append(ln)
+            meta[i] = (st, rel, raw, dmg, route, lidx[ln])
+    # `int(field, 16)`: the cut / padded length fields that occur, and malformed ones
+    hexcases = set()
+    for st in sets:
+        for rel in st["zf"]:
+            fld = Path(st["files"][rel]).read_bytes()[2:21]
+            hexcases |= {fld[:j] for j in range(20)} | {fld[j:] for j in range(1, 6)}
+    alphabet = b"0123456789abcdefABCDEFxX_+- \t\n\x0b\x0c\rgG\x00."
+    for _ in range(120 if not ctx.thorough else 1500):
+        hexcases.add(bytes(rng.choice(alphabet) for _ in range(rng.choice([0, 1, 2, 3, 4, 5, 8, 19]))))
+    hexcases = sorted(hexcases)
+    model = _drive(ctx, lines + ["hexint " + (h.hex() or "-") for h in hexcases])
+    for h, m in zip(hexcases, model[len(lines):]):
+        try:
+            py = "int %d" % int(h, 16)
+        except ValueError:
+            py = "ValueError"
+        res.evaluations += 1
+        res.traces_validated += 1
+        res.count("hexint=" + py.split()[0])
+        if py != m:
+            res.diverge("hexint", dict(family="hexint", bytes=h.hex()), py, m)
+    for i, t in meta.items():
+        st, rel, raw, dmg, route = t[:5]
+        rep = replies.get(i)
+        if rep is None:
+            raise core.InfraError(f"no reply for legacy case {i}")
+        if rep["cls"] == "skipped":
+            res.count("skipped-after-repeated-watchdog-expiry")
+            continue
+        if rep["cls"] == "intact-raises":
+            res.count("legacy-sample-intact-file-does-not-load:" + rep.get("exc", ""))
+            continue
+        if rep["cls"] == "infra":
+            raise core.InfraError(f"worker: {rep.get('detail')} on legacy {st.get('sample') or st['spec']} {rel} {dmg[:2]} {route}")
+        kind = _kind(dmg)
+        fam = "legacy-" + st["kind"]
+        case = dict(family="legacy", kind=st["kind"], sample=st.get("sample"), spec=st["spec"], level=st["level"], wide=st["wide"],
+                    target=rel, route=route, valid_len=len(raw), damage=dmg if dmg[0] == "cut" else [dmg[0], dmg[1], dmg[2][:64]],
+                    damage_full=dmg if len(str(dmg)) < 50000 else None)
+        res.evaluations += 1
+        res.count("comp=" + fam)
+        res.count("legacy-route=" + route)
+        res.count("legacy-target=" + ("main" if rel == st["main"] else "companion"))
+        res.count(f"damage={kind}")
+        res.count(f"impl={rep['cls']}" + (":" + rep.get("exc", "") if rep["cls"] == "raises" else ""))
+        if (dmg[1] if dmg[0] == "cut" else 1) > 0:
+            res.nontrivial.add((fam, st.get("sample") or tuple(st["spec"]), st["level"], st["wide"], rel, json.dumps(dmg), route))
+        res.sample(dict(case=case, impl=rep["cls"]))
+        impl = rep["cls"]
+        mrep = model[t[5]].split() if len(t) > 5 else None
+        if mrep is not None and mrep[0] == "bad-op":
+            raise core.InfraError(f"driver rejected {lines[t[5]][:200]}")
+        # ---------------- oracle (does not use the model)
+        if impl == "hang":
+            res.fail(f"hang:{fam}:{kind}", case, rep.get("detail"))
+        elif impl == "returns-other":
+            res.fail(f"lies:{fam}:{kind}:{route}", case, "a different object was returned")
+        elif route == "memory" and impl == "raises":
+            res.fail(f"cached-call-raises:{fam}:{kind}", case, rep.get("exc"))
+        elif route == "zfread" and impl == "zdata":
+            full = zlib.decompress(raw[22:] if raw[21:22] == b" " else raw[21:])
+            if rep["n"] != len(full) or rep["adler"] != zlib.adler32(full):
+                res.fail(f"zfile-lies:{fam}:{kind}", case, f"read_zfile returned {rep['n']} bytes that are not the stored data")
+        # ---------------- correspondence
+        if mrep is None or route in ("memory", "fileobj"):
+            res.count("model=unmodelled")   # load(<file object>) never reaches read_zfile; companions that are not z-files
+            continue
+        res.traces_validated += 1
+        if route == "zfread":
+            impl_z = ("zdata %d" % rep["n"]) if impl == "zdata" else "hang" if impl == "hang" else "exc " + rep.get("exc", "")
+            if impl_z != " ".join(mrep[2:]):
+                res.diverge("read_zfile", case, impl_z, " ".join(mrep[2:]))
+        elif rel == st["main"] and st["kind"] == "zf":
+            if impl != mrep[0]:
+                res.diverge("legacy-load-class", case, impl + (":" + rep.get("exc", "") if impl == "raises" else ""), mrep[0])
+        elif impl == "returns-original" and mrep[0] == "raises":
+            # a sample: what is inside the z-file is not known to the model beyond its length — only "read_zfile raises
+            # => load raises" is compared
+            res.diverge("legacy-load-class", case, impl, mrep[0])
+    return res
+
+
+# ----------------------------------------------------------------------------- two callers of one damaged entry
+
+RACE_SHELVE_STRICT = bool(os.environ.get("VERIF_C14_SHELVE_STRICT"))
+
+
+def _explore_race(ctx, salt, res, only=None):
+    """Two threads call the cached function on ONE damaged entry; every interleaving with at most three switches at
+    the granularity of the store-backend operations (contains_item, get_metadata, load_item, clear_item, dump_item,
+    store_metadata; hooks set as instance attributes) is forced. Oracle: both calls return the value."""
+    joblib = core.use_repo()
+    rng = ctx.rng(salt + "/race")
+    # backstop only: a caller that never comes back is reported from inside the worker (scheduler wait 15 s, join 40 s);
+    # one item runs up to ~200 schedules (normally 2-8 s in all)
+    watchdog = 900
+    if only is not None:
+        plan = [(tuple(only["spec"]), only["comp"], only["level"], only["opts"], only["damage_full"], only["meta"], only.get("schedule"))]
+    else:
+        def opts(**kw):
+            d = dict(mmap_mode=None, validation=False, precheck=False, entry="call")
+            d.update(kw)
+            return d
+        configs = [(("dict",), "none", 0, opts(mmap_mode="r")), (("dict",), "zlib", 3, opts())]
+        extra = [(("dict",), "none", 0, opts(mmap_mode="r", validation=True)), (("int",), "none", 0, opts(mmap_mode="c", precheck=True)),
+                 (("dict",), "gzip", 3, opts(validation=True, precheck=True)), (("dict",), "none", 0, opts(entry="shelve")),
+                 (("dict",), "bz2", 3, opts(mmap_mode="r")), (("rep", 20000), "none", 0, opts(mmap_mode="r+")),
+                 (("dict",), "none", 0, opts()), (("dict",), "lzma", 3, opts(precheck=True))]
+        configs += extra if ctx.thorough else [extra[rng.randrange(len(extra))]]
+        plan = []
+        for spec, comp, level, o in configs:
+            for dk in (["cut-half"] if not ctx.thorough else ["cut-half", "cut-1", "cut-last", "ext"]):
+                plan.append((spec, comp, level, o, dk, rng.choice(["keep", "keep", "missing", "prefix", "empty"]), None))
+    files = {}
+    items, meta = [], {}
+    for spec, comp, level, o, dk, md, schedule in plan:
+        key = (spec, comp, level)
+        if key not in files:
+            files[key] = build_file(ctx, joblib, spec, comp, level)
+        f = files[key]
+        R = f["R"]
+        dmg = dk if isinstance(dk, list) else {"cut-half": ["cut", R // 2], "cut-1": ["cut", 1], "cut-last": ["cut", R - 1],
+                                                "ext": ["ext", "X", b"X".hex()]}[dk]
+        i = len(items)
+        items.append(dict(id=i, cmd="race", spec=list(spec), comp=comp, level=level, valid=f["valid"], damage=dmg, meta=md, opts=o,
+                          schedule=schedule, shelve_strict=RACE_SHELVE_STRICT, route="race",
+                          max_schedules=None if ctx.thorough else 220))
+        meta[i] = (f, dmg, o, md)
+    replies = run_items(ctx, items, watchdog, n_workers=3 if not ctx.thorough else 8, py=core.PY)
+    for i, (f, dmg, o, md) in meta.items():
+        rep = replies[i]
+        if rep["cls"] == "infra":
+            raise core.InfraError(f"worker: {rep.get('detail')} on race case {items[i]}")
+        okey = "mmap=%s,validation=%d,precheck=%d,entry=%s" % (o.get("mmap_mode"), o.get("validation", False), o.get("precheck", False), o.get("entry"))
+        case = dict(family="race", spec=f["spec"], comp=f["comp"], level=f["level"], opts=o, damage=dmg, damage_full=dmg, meta=md,
+                    valid_len=f["R"], schedule=None)
+        if rep["cls"] in ("hang", "skipped"):
+            if rep["cls"] == "hang":
+                res.fail(f"two-callers:hang:{f['comp']}:{okey}", case, rep.get("detail"))
+            continue
+        res.evaluations += rep["runs"]
+        res.count("two-callers:" + okey, rep["runs"])
+        res.count("two-callers:distinct-operation-orders", rep["distinct"])
+        res.nontrivial.add(("race", tuple(f["spec"]), f["comp"], okey, json.dumps(dmg), md))
+        res.sample(dict(case=case, runs=rep["runs"], distinct_orders=rep["distinct"]))
+        bad = rep.get("bad")
+        if bad:
+            case["schedule"] = bad["schedule"]
+            worst = sorted(v for v in bad["outcome"].values() if v != "ok")
+            cls = "hang" if any(v in ("hang", "sched-timeout") for v in worst) else "wrong-value" if "wrong-value" in worst else "raises"
+            res.fail(f"two-callers:{cls}:{f['comp']}:{_kind(dmg)}:mmap={o.get('mmap_mode')},entry={o.get('entry')}", case,
+                     dict(outcome=bad["outcome"], operations=bad["trace"]))
+        bs = rep.get("bad_shelve")
+        if bs and not bad:
+            # F59: a reference obtained with call_and_shelve() on a damaged entry cannot recompute: .get() raises the load error
+            # (one stable signature: whatever the compressor, the damage and the schedule - also with a single caller)
+            case["schedule"] = bs["schedule"]
+            res.fail("shelved-reference:get-raises-on-damaged-entry", case, dict(outcome=bs["outcome"], operations=bs["trace"]))
     return res
 
 
@@ -829,6 +1385,12 @@ def _drive(ctx, lines, shards=8):
 def run(ctx):
     if ctx.replay:
         case = ctx.replay.get("case", {})
+        if case.get("family") in ("legacy", "race"):
+            res = Result()
+            res.rule = "replay of one %s case" % case["family"]
+            if not case.get("damage_full"):
+                raise core.InfraError("replay file does not carry the full damage description")
+            return (_explore_legacy if case["family"] == "legacy" else _explore_race)(ctx, "replay", res, only=case)
         dmg = case.get("damage_full") or case.get("damage")
         if not dmg or any(isinstance(x, str) and x.endswith("…") for x in dmg):
             raise core.InfraError("replay file does not carry the full damage description")
